@@ -28,7 +28,7 @@ func typ(b *strings.Builder, t *yang.YangType, ind string, depth int) {
 	if t.IdentityBase != nil {
 		fmt.Fprintf(b, " idbase=%s vals=[", t.IdentityBase.PrefixedName())
 		for _, v := range t.IdentityBase.Values {
-			fmt.Fprintf(b, "%s ", v.PrefixedName())
+			fmt.Fprintf(b, "%s ", idName(v))
 		}
 		b.WriteString("]")
 	}
@@ -117,13 +117,22 @@ func Set(ms *yang.Modules, errs []error, pos bool) string {
 			for _, id := range e.Identities {
 				fmt.Fprintf(&b, "  identity %s:", id.Name)
 				for _, v := range id.Values {
-					fmt.Fprintf(&b, " %s", v.PrefixedName())
+					fmt.Fprintf(&b, " %s", idName(v))
 				}
 				b.WriteString("\n")
 			}
 		}
 	}
 	return b.String()
+}
+
+// idName names an identity by the file that defines it, not by its prefix: two modules may
+// declare the same prefix, and then prefix:name does not tell their identities apart.
+func idName(v *yang.Identity) string {
+	if r := yang.RootNode(v); r != nil {
+		return r.Name + "/" + v.PrefixedName()
+	}
+	return "?/" + v.PrefixedName()
 }
 
 // Entry dumps one subtree.
